@@ -12,8 +12,8 @@ use std::str::FromStr;
 
 pub fn lanes() -> Vec<Lane> {
     vec![
-        Lane { name: "set-get", count: |c| rows().len() as u64 * 6 * if c.thorough() { 200 } else { 12 }, run: setget_lane },
-        Lane { name: "sequences", count: |c| if c.thorough() { 200_000 } else { 12_000 }, run: sequences_lane },
+        Lane { name: "set-get", count: |c| rows().len() as u64 * 6 * if c.thorough() { 300 } else { 40 }, run: setget_lane },
+        Lane { name: "sequences", count: |c| if c.thorough() { 400_000 } else { 50_000 }, run: sequences_lane },
         Lane { name: "read-side", count: |_| reads().len() as u64, run: read_lane },
         Lane { name: "selection", count: |c| if c.thorough() { 100_000 } else { 8_000 }, run: selection_lane },
     ]
